@@ -14,6 +14,8 @@ CHECKS = {
     "C13": ("props_pipeline", "check_c13"),
     "C14": ("props_pipeline", "check_c14"),
     "C12": ("props_validate", "check_c12"),
+    "C09": ("props_format", "check_c09"),
+    "C10": ("props_format", "check_c10"),
 }
 
 
@@ -34,11 +36,17 @@ def main():
     c = sub.add_parser("check")
     c.add_argument("pid")
     c.add_argument("--tier", default=os.environ.get("VERIF_TIER", "quick"))
+    acc = sub.add_parser("accept")
+    acc.add_argument("pid")
+    acc.add_argument("--tier", default="quick")
     r = sub.add_parser("replay")
     r.add_argument("path")
     sub.add_parser("setup")
     sub.add_parser("sany")
     a = ap.parse_args()
+    if a.cmd == "accept":
+        os.environ["VERIF_ACCEPT_KNOWN"] = "1"
+        a.cmd = "check"
     if a.cmd == "check":
         if a.pid not in CHECKS:
             print("unknown property", a.pid)
